@@ -7,6 +7,7 @@ import (
 	"strings"
 
 	"golang.org/x/net/html"
+	"golang.org/x/net/html/atom"
 	"verif/harness/eng"
 	"verif/harness/ora"
 )
@@ -188,6 +189,15 @@ func urlUses(root *html.Node, input bool) []urlUse {
 		if !input && ora.IsPlaceholder(n) {
 			return false
 		}
+		if input && n.Data == "noscript" && n.FirstChild != nil && n.FirstChild.Type == html.TextNode {
+			// with scripting enabled the parser keeps the content of <noscript> as text; the library
+			// reads images out of it, so its URLs belong to the source as well
+			if frag, err := html.ParseFragment(strings.NewReader(ora.AllText(n)), &html.Node{Type: html.ElementNode, Data: "div", DataAtom: atom.Div}); err == nil {
+				for _, f := range frag {
+					out = append(out, urlUses(f, true)...)
+				}
+			}
+		}
 		for _, a := range n.Attr {
 			switch a.Key {
 			case "href", "src", "poster", "data-src":
@@ -215,11 +225,19 @@ func c06Check(c *eng.Case) *eng.Outcome {
 		return o
 	}
 	orig := map[string]string{}
+	ambiguous := map[string]bool{}
 	for _, u := range urlUses(a.Doc, true) {
 		if m := rxMarker.FindString(u.val); m != "" {
-			if _, dup := orig[m]; !dup {
+			if prev, dup := orig[m]; !dup {
 				orig[m] = u.val
+			} else if prev != u.val {
+				ambiguous[m] = true // atoms of other checks reuse one marker for two URLs (u2z.jpg, u2z-lazy.jpg)
 			}
+		}
+	}
+	if c.Kind == "xurls" {
+		for m := range ambiguous {
+			delete(orig, m) // such URLs are judged by the membership rule only
 		}
 	}
 	relSeen := 0
